@@ -7,7 +7,7 @@
      logical   cont[n][rv]   content of trie n at root version rv            (ghost)
                rootv[n][b]   root version of trie n as of block version b    (for main tries = b; for a storage-like
                              trie the version of its last change: in thor that reference lives in the account leaf)
-     physical  hist  : (name, path, ver) |-> node        written by Commit, range-deleted by partitions
+     physical  hist  : (name, path, ver) |-> node        written by Commit, range-deleted by whole partitions
                dedup : (partition, name, path) |-> node  written by Checkpoint; NO version in the key: a lookup
                                                          returns whatever blob is there
      node      = [leaves: embedded key |-> value, refs: standalone descendant path |-> version]
@@ -18,7 +18,11 @@
    (here: all of them, values are >= 32 bytes; see Hashed), every node when the trie is hash-skipped.  Everything
    else is embedded in its nearest standalone ancestor.
 
-   Versions are (major, minor) = (block number, number of blocks already stored at that height).                  *)
+   Versions are (major, minor) = (block number, number of blocks already stored at that height).
+
+   hist is kept as  ever (all nodes ever written, ghost)  minus the deleted partitions [0, delp): DeleteHistoryNodes
+   removes the partition range [base/hf, target/hf) and base is always the previous target, so the union of all
+   ranges deleted so far is [0, base/hf); a commit never writes below it (its parent is retained).                *)
 EXTENDS Integers, Sequences, FiniteSets, TLC
 
 CONSTANTS Nib,        \* nibble alphabet, e.g. {0,1}
@@ -26,11 +30,13 @@ CONSTANTS Nib,        \* nibble alphabet, e.g. {0,1}
           Names,      \* trie names
           Main,       \* subset of Names: committed at every block, root fetched from hist only ("a", "i")
           Opts,       \* set of option records [hf, df, skip] the model may start with
+          InitConts,  \* set of genesis contents [Names -> content] (the genesis block is a commit at version (0,0))
           MaxMaj,     \* largest block number
           MaxMin,     \* largest minor version (number of forks at one height)
           MaxForks,   \* total number of fork commits
           MaxTouch,   \* max updates per block (over all tries)
-          AlignedOnly \* TRUE: prune targets are multiples of the hist partition factor (as in production)
+          AlignedOnly,\* TRUE: prune targets are multiples of the hist partition factor (as in production)
+          InFlightReads \* TRUE: the guarantees also cover reads of blocks below the target WHILE a round is running
 
 VARIABLES opt,      \* [hf |-> hist partition factor, df |-> deduped partition factor, skip |-> SUBSET Names]
           vers,     \* committed block versions
@@ -38,15 +44,15 @@ VARIABLES opt,      \* [hf |-> hist partition factor, df |-> deduped partition f
           rootv,    \* [Names -> [vers -> root version or NoVer (empty trie)]]
           cont,     \* ghost: [Names -> [root versions -> content]]
           tver,     \* bookkeeping: [Names -> [root versions -> [standalone path -> version of the node there]]]
-          ever,     \* ghost: every node ever written, set of [name, path, ver, node]  (= hist without deletions)
-          hist,     \* set of [name, path, ver, node]
-          dedup,    \* set of [ptn, name, path, node], at most one per (ptn, name, path)
+          ever,     \* every node ever written: <<name, path, ver>> |-> node
+          delp,     \* hist partitions below delp have been range-deleted
+          dedup,    \* <<ptn, name, path>> |-> node
           base,     \* prune base: majors below are pruned
           ckroot,   \* block version whose tries were checkpointed last (canonical block base-1), or NoVer
           pend,     \* pending prune target between Checkpoint and DeleteHist (0 = none)
           rcache,   \* root cache of the open MuxDB: [Names -> root version or NoVer]
           w         \* working copy: [par |-> block version or NoVer (closed), cur, touched]
-vars == <<opt, vers, anc, rootv, cont, tver, ever, hist, dedup, base, ckroot, pend, rcache, w>>
+vars == <<opt, vers, anc, rootv, cont, tver, ever, delp, dedup, base, ckroot, pend, rcache, w>>
 
 V(a, b) == [maj |-> a, min |-> b]
 NoVer == V(0 - 1, 0)
@@ -85,99 +91,114 @@ MkNode(c, sa, tv, p) ==
 HPtn(v) == v.maj \div opt.hf
 DPtn(v) == v.maj \div opt.df
 Skip(n) == n \in opt.skip
-GetIn(S, n, p, v) == IF \E h \in S : h.name = n /\ h.path = p /\ h.ver = v
-                     THEN (CHOOSE h \in S : h.name = n /\ h.path = p /\ h.ver = v).node ELSE NoNode
-HistGet(n, p, v) == GetIn(hist, n, p, v)
-DedGet(n, p, v) == IF \E d \in dedup : d.name = n /\ d.path = p /\ d.ptn = DPtn(v)
-                   THEN (CHOOSE d \in dedup : d.name = n /\ d.path = p /\ d.ptn = DPtn(v)).node ELSE NoNode
+EverGet(n, p, v) == IF <<n, p, v>> \in DOMAIN ever THEN ever[<<n, p, v>>] ELSE NoNode
+HistHas(n, p, v) == <<n, p, v>> \in DOMAIN ever /\ HPtn(v) >= delp
+HistKeys == {k \in DOMAIN ever : HPtn(k[3]) >= delp}
+HistGet(n, p, v) == IF HistHas(n, p, v) THEN ever[<<n, p, v>>] ELSE NoNode
+DedGet(n, p, v) == IF <<DPtn(v), n, p>> \in DOMAIN dedup THEN dedup[<<DPtn(v), n, p>>] ELSE NoNode
 \* hist first; the root of a main trie is never taken from the deduped space; everything else falls back to it
 RootFromDedup(n) == n \notin Main
-StoreGet(n, p, v) == LET h == HistGet(n, p, v) IN
-                     IF h # NoNode THEN h
+StoreGet(n, p, v) == IF HistHas(n, p, v) THEN ever[<<n, p, v>>]
                      ELSE IF p = <<>> /\ ~RootFromDedup(n) THEN NoNode
                      ELSE DedGet(n, p, v)
 \* cached = TRUE: every node blob that was ever written/read may be served from the blob cache (keyed by version,
 \* hence always the right blob); the root is never in the blob cache, only the root cache (rcache) can serve it
 Lookup(n, p, v, cached) ==
-  IF p = <<>> THEN (IF cached /\ rcache[n] = v THEN GetIn(ever, n, p, v) ELSE StoreGet(n, p, v))
-  ELSE IF cached /\ GetIn(ever, n, p, v) # NoNode THEN GetIn(ever, n, p, v)
+  IF p = <<>> THEN (IF cached /\ rcache[n] = v THEN EverGet(n, p, v) ELSE StoreGet(n, p, v))
+  ELSE IF cached /\ <<n, p, v>> \in DOMAIN ever THEN ever[<<n, p, v>>]
   ELSE StoreGet(n, p, v)
 
+\* assemble the content below a node from its embedded leaves and the contents read through its refs
+Assemble(nd, sub) ==
+  IF \E q \in DOMAIN sub : sub[q] = Err THEN Err
+  ELSE [k \in Keys |-> IF k \in DOMAIN nd.leaves THEN nd.leaves[k]
+                       ELSE IF \E q \in DOMAIN sub : IsPrefix(q, k)
+                            THEN sub[CHOOSE q \in DOMAIN sub : IsPrefix(q, k)][k]
+                            ELSE 0]
 RECURSIVE ReadNode(_, _, _, _)
-ReadNode(n, p, v, cached) ==
-  LET nd == Lookup(n, p, v, cached) IN
-  IF nd = NoNode THEN Err
-  ELSE LET sub == [q \in DOMAIN nd.refs |-> ReadNode(n, q, nd.refs[q], cached)] IN
-       IF \E q \in DOMAIN sub : sub[q] = Err THEN Err
-       ELSE [k \in Keys |-> IF k \in DOMAIN nd.leaves THEN nd.leaves[k]
-                            ELSE IF \E q \in DOMAIN sub : IsPrefix(q, k)
-                                 THEN sub[CHOOSE q \in DOMAIN sub : IsPrefix(q, k)][k]
-                                 ELSE 0]
+ReadFrom(n, nd, cached) ==
+  IF nd = NoNode THEN Err ELSE Assemble(nd, [q \in DOMAIN nd.refs |-> ReadNode(n, q, nd.refs[q], cached)])
+ReadNode(n, p, v, cached) == ReadFrom(n, Lookup(n, p, v, cached), cached)
 ReadTrie(n, rv, cached) == IF rv = NoVer THEN Empty ELSE ReadNode(n, <<>>, rv, cached)
 
 \* state read at block version b: main tries first; a non-main trie is reached only through the main tries
 \* (its root reference is stored in an account leaf), so it is unreadable when a main trie is
 MainErr(b, cached) == \E n \in Main : ReadTrie(n, rootv[n][b], cached) = Err
-ReadState(b, cached) == [n \in Names |-> IF MainErr(b, cached) THEN Err ELSE ReadTrie(n, rootv[n][b], cached)]
+ReadState(b, cached) == IF MainErr(b, cached) THEN [n \in Names |-> Err]
+                        ELSE [n \in Names |-> ReadTrie(n, rootv[n][b], cached)]
 Logical(b) == [n \in Names |-> IF rootv[n][b] = NoVer THEN Empty ELSE cont[n][rootv[n][b]]]
 StateErr(s) == \E n \in Names : s[n] = Err
 
 \* ---------------------------------------------------------------- retained / pruned
+\* A prune round [base, target) = Checkpoint (pend := target) ; DeleteHist (base := target).  From the moment the
+\* round starts the guarantee "reads exactly its content" is owed to the blocks at or after the target only.
+\* Blocks in [base, target) are IN FLIGHT until the deletion is done: their roots are still in hist while the
+\* deduped space below them is already being overwritten.
 OnCanon(b) == ckroot = NoVer \/ ckroot \in anc[b]
-Retained(b) == b.maj >= base /\ OnCanon(b)
+Lim == IF pend # 0 THEN pend ELSE base
+Retained(b) == b.maj >= Lim /\ OnCanon(b)
+InFlight(b) == pend # 0 /\ b.maj >= base /\ b.maj < pend
+Owed(b) == InFlightReads \/ ~InFlight(b)
 
-\* ---------------------------------------------------------------- actions
-TypeOpt == opt \in Opts
-Init ==
-  /\ opt \in Opts
+\* ---------------------------------------------------------------- commit
+\* nodes written when trie n (old standalone map otv of the parent root) is committed at version b with content nc
+\* and touched keys T.  A standalone node is rewritten iff it is the root, a touched key passes through it, or no
+\* node started at that path before; all other standalone nodes keep their version (clean children keep old refs).
+NewVers(otv, sa, T, b) ==
+  [q \in sa |-> IF q = <<>> \/ (\E k \in T : IsPrefix(q, k)) \/ q \notin DOMAIN otv THEN b ELSE otv[q]]
+NewNodes(n, nc, b, sa, ntv) ==
+  [k \in {<<n, q, b>> : q \in {r \in sa : ntv[r] = b}} |-> MkNode(nc, sa, ntv, k[2])]
+CommitTrieS(n, otv, nc, T, b, skip) ==
+  LET sa == Standalone(nc, skip)
+      ntv == NewVers(otv, sa, T, b)
+  IN [tv |-> ntv, nodes |-> NewNodes(n, nc, b, sa, ntv)]
+CommitTrie(n, prv, nc, T, b) == CommitTrieS(n, IF prv = NoVer THEN <<>> ELSE tver[n][prv], nc, T, b, Skip(n))
+\* union of functions with disjoint domains
+Merge(f, g) == [k \in DOMAIN f \cup DOMAIN g |-> IF k \in DOMAIN g THEN g[k] ELSE f[k]]
+RECURSIVE MergeAll(_, _)
+MergeAll(fs, S) == IF S = {} THEN <<>> ELSE LET x == CHOOSE x \in S : TRUE IN Merge(MergeAll(fs, S \ {x}), fs[x])
+
+Closed == [par |-> NoVer, cur |-> [n \in Names |-> Empty], touched |-> [n \in Names |-> {}]]
+InitWith(o, c0) ==
+  LET res == [n \in Names |-> CommitTrieS(n, <<>>, c0[n], {}, Genesis, n \in o.skip)]
+      ne == {n \in Names : c0[n] # Empty}
+  IN
+  /\ opt = o
   /\ vers = {Genesis}
   /\ anc = [b \in {Genesis} |-> {Genesis}]
-  /\ rootv = [n \in Names |-> [b \in {Genesis} |-> NoVer]]
-  /\ cont = [n \in Names |-> <<>>]
-  /\ tver = [n \in Names |-> <<>>]
-  /\ ever = {} /\ hist = {} /\ dedup = {}
+  /\ rootv = [n \in Names |-> [b \in {Genesis} |-> IF n \in ne THEN Genesis ELSE NoVer]]
+  /\ cont = [n \in Names |-> IF n \in ne THEN [b \in {Genesis} |-> c0[n]] ELSE <<>>]
+  /\ tver = [n \in Names |-> IF n \in ne THEN [b \in {Genesis} |-> res[n].tv] ELSE <<>>]
+  /\ ever = MergeAll([n \in ne |-> res[n].nodes], ne)
+  /\ delp = 0 /\ dedup = <<>>
   /\ base = 0 /\ ckroot = NoVer /\ pend = 0
-  /\ rcache = [n \in Names |-> NoVer]
-  /\ w = [par |-> NoVer, cur |-> [n \in Names |-> Empty], touched |-> [n \in Names |-> {}]]
+  /\ rcache = [n \in Names |-> IF n \in ne THEN Genesis ELSE NoVer]
+  /\ w = Closed
+Init == \E o \in Opts, c0 \in InitConts : InitWith(o, c0)
 
 \* open a working copy of the state at a retained block
+CanOpen(p) == w.par = NoVer /\ p \in vers /\ Retained(p) /\ p.maj < MaxMaj
 Open(p) ==
-  /\ w.par = NoVer /\ p \in vers /\ Retained(p) /\ p.maj < MaxMaj
-  /\ pend = 0 \/ p.maj >= pend            \* do not build on a block that a running prune round is removing
+  /\ CanOpen(p)
   /\ w' = [par |-> p, cur |-> Logical(p), touched |-> [n \in Names |-> {}]]
-  /\ UNCHANGED <<opt, vers, anc, rootv, cont, tver, ever, hist, dedup, base, ckroot, pend, rcache>>
+  /\ UNCHANGED <<opt, vers, anc, rootv, cont, tver, ever, delp, dedup, base, ckroot, pend, rcache>>
 
 \* trie.Update: an insert of the value already there and a delete of an absent key leave the path clean
 Update(n, k, v) ==
   /\ w.par # NoVer /\ v # w.cur[n][k]
   /\ w' = [w EXCEPT !.cur[n][k] = v, !.touched[n] = @ \cup {k}]
-  /\ UNCHANGED <<opt, vers, anc, rootv, cont, tver, ever, hist, dedup, base, ckroot, pend, rcache>>
-
+  /\ UNCHANGED <<opt, vers, anc, rootv, cont, tver, ever, delp, dedup, base, ckroot, pend, rcache>>
 \* delete + re-insert of the same value inside one block: content unchanged, path dirty
 Touch(n, k) ==
   /\ w.par # NoVer /\ w.cur[n][k] # 0
   /\ w' = [w EXCEPT !.touched[n] = @ \cup {k}]
-  /\ UNCHANGED <<opt, vers, anc, rootv, cont, tver, ever, hist, dedup, base, ckroot, pend, rcache>>
+  /\ UNCHANGED <<opt, vers, anc, rootv, cont, tver, ever, delp, dedup, base, ckroot, pend, rcache>>
 
 NextMinor(m) == Cardinality({b \in vers : b.maj = m})
-\* nodes written when trie n (parent root prv) is committed at version b with content nc and touched keys T
-CommitTrie(n, prv, nc, T, b) ==
-  LET sa  == Standalone(nc, Skip(n))
-      osa == IF prv = NoVer THEN {} ELSE DOMAIN tver[n][prv]
-      ntv == [q \in sa |-> IF q = <<>> \/ (\E k \in T : IsPrefix(q, k)) \/ q \notin osa THEN b ELSE tver[n][prv][q]]
-  IN [tv |-> ntv,
-      nodes |-> {[name |-> n, path |-> q, ver |-> b, node |-> MkNode(nc, sa, ntv, q)] : q \in {r \in sa : ntv[r] = b}}]
-
-Closed == [par |-> NoVer, cur |-> [n \in Names |-> Empty], touched |-> [n \in Names |-> {}]]
 \* commit of the working copy (p, cur, touched) as block version b: state.Stage.Commit commits every storage-like
-\* trie that was written and the main tries always
-DoCommit(p, cur, touched, b) ==
-  LET commits(n) == n \in Main \/ touched[n] # {}
-      res == [n \in Names |-> CommitTrie(n, rootv[n][p], cur[n], touched[n], b)]
-      nonempty(n) == cur[n] # Empty
-      nrv == [n \in Names |-> IF commits(n) THEN (IF nonempty(n) THEN b ELSE NoVer) ELSE rootv[n][p]]
-      new == UNION {res[n].nodes : n \in {m \in Names : commits(m) /\ nonempty(m)}}
-  IN /\ vers' = vers \cup {b}
+\* trie that was written, and the main tries always
+DoCommit2(p, cur, b, res, nrv, cs) ==
+     /\ vers' = vers \cup {b}
      /\ anc' = [x \in vers \cup {b} |-> IF x = b THEN anc[p] \cup {b} ELSE anc[x]]
      /\ rootv' = [n \in Names |-> [x \in vers \cup {b} |-> IF x = b THEN nrv[n] ELSE rootv[n][x]]]
      /\ cont' = [n \in Names |-> IF nrv[n] = b
@@ -186,11 +207,15 @@ DoCommit(p, cur, touched, b) ==
      /\ tver' = [n \in Names |-> IF nrv[n] = b
                                   THEN [x \in DOMAIN tver[n] \cup {b} |-> IF x = b THEN res[n].tv ELSE tver[n][x]]
                                   ELSE tver[n]]
-     /\ hist' = hist \cup new
-     /\ ever' = ever \cup new
+     /\ ever' = Merge(ever, MergeAll([n \in cs |-> res[n].nodes], cs))
      /\ rcache' = [n \in Names |-> IF nrv[n] = b THEN b ELSE rcache[n]]
      /\ w' = Closed
-     /\ UNCHANGED <<opt, dedup, base, ckroot, pend>>
+     /\ UNCHANGED <<opt, delp, dedup, base, ckroot, pend>>
+DoCommit(p, cur, touched, b) ==
+  \E res \in {[n \in Names |-> CommitTrie(n, rootv[n][p], cur[n], touched[n], b)]} :
+  \E nrv \in {[n \in Names |-> IF n \in Main \/ touched[n] # {} THEN (IF cur[n] # Empty THEN b ELSE NoVer)
+                                ELSE rootv[n][p]]} :
+     DoCommit2(p, cur, b, res, nrv, {n \in Names : nrv[n] = b})
 
 \* first block at its height
 Commit == /\ w.par # NoVer /\ NextMinor(w.par.maj + 1) = 0
@@ -200,28 +225,25 @@ CommitFork == /\ w.par # NoVer /\ NextMinor(w.par.maj + 1) > 0
               /\ DoCommit(w.par, w.cur, w.touched, V(w.par.maj + 1, NextMinor(w.par.maj + 1)))
 \* Open ; Update* ; Touch* ; Commit|CommitFork in one step (used by the exhaustive configurations: the intermediate
 \* states of a working copy do not interact with the store)
-CanOpen(p) == /\ w.par = NoVer /\ p \in vers /\ Retained(p) /\ p.maj < MaxMaj
-              /\ pend = 0 \/ p.maj >= pend
 Block(p, cur, touched) ==
   /\ CanOpen(p)
   /\ DoCommit(p, cur, touched, V(p.maj + 1, NextMinor(p.maj + 1)))
 
+\* ---------------------------------------------------------------- prune = Checkpoint ; DeleteHist
 \* muxdb.Trie.Checkpoint: walk from the root with minVer = (bmaj, 0); a node whose version is lower is skipped
 \* together with its subtree (sound because a parent's version >= its descendants'); the blob read through the
-\* normal reader is put under the deduped key of ITS version's partition
-RECURSIVE CkptSet(_, _, _, _)
+\* normal reader is put under the deduped key of ITS version's partition.  Result: set of <<key, node>>.
 CkptSkips(v, bmaj) == v.maj < bmaj          \* trie/iterator.go: ref.ver.Compare(minVer) < 0 with minVer = (bmaj, 0)
-CkptSet(n, p, v, bmaj) ==
-  IF CkptSkips(v, bmaj) THEN {}
-  ELSE LET nd == StoreGet(n, p, v) IN
-       IF nd = NoNode THEN {[ptn |-> 0 - 1, name |-> n, path |-> p, node |-> NoNode]}   \* walk fails
-       ELSE {[ptn |-> DPtn(v), name |-> n, path |-> p, node |-> nd]}
-            \cup UNION {CkptSet(n, q, nd.refs[q], bmaj) : q \in DOMAIN nd.refs}
+RECURSIVE CkptSet(_, _, _, _)
+CkptFrom(n, p, v, bmaj, nd) ==
+  IF nd = NoNode THEN {<<<<0 - 1, n, p>>, NoNode>>}          \* the walk fails
+  ELSE {<<<<DPtn(v), n, p>>, nd>>} \cup UNION {CkptSet(n, q, nd.refs[q], bmaj) : q \in DOMAIN nd.refs}
+CkptSet(n, p, v, bmaj) == IF CkptSkips(v, bmaj) THEN {} ELSE CkptFrom(n, p, v, bmaj, StoreGet(n, p, v))
 \* pruner.checkpointTries: main tries always; a storage-like trie only if its root version is >= base
 CkptAll(t, bmaj) ==
   UNION {IF rootv[n][t] = NoVer \/ (n \notin Main /\ rootv[n][t].maj < bmaj) THEN {}
          ELSE CkptSet(n, <<>>, rootv[n][t], bmaj) : n \in Names}
-Put(S, new) == {d \in S : ~\E e \in new : e.ptn = d.ptn /\ e.name = d.name /\ e.path = d.path} \cup new
+AsFun(S) == [k \in {e[1] : e \in S} |-> (CHOOSE e \in S : e[1] = k)[2]]
 
 Aligned(target) == target % opt.hf = 0 \/ opt.hf = BigFactor
 \* what thor guarantees before a prune round (awaitUntilPrunable: target+65535 is final):
@@ -240,30 +262,31 @@ CanPrune(t, target) ==
 
 Checkpoint(t, target) ==
   /\ CanPrune(t, target)
-  /\ LET new == CkptAll(t, base) IN
-     /\ \A e \in new : e.node # NoNode
-     /\ dedup' = Put(dedup, new)
+  /\ \E new \in {CkptAll(t, base)} :
+       /\ \A e \in new : e[2] # NoNode
+       /\ dedup' = Merge(dedup, AsFun(new))
   /\ pend' = target /\ ckroot' = t
-  /\ UNCHANGED <<opt, vers, anc, rootv, cont, tver, ever, hist, base, rcache, w>>
+  /\ UNCHANGED <<opt, vers, anc, rootv, cont, tver, ever, delp, base, rcache, w>>
 
 \* backend.DeleteHistoryNodes: whole partitions [base/hf, target/hf)
 DeleteHist ==
   /\ pend # 0
-  /\ hist' = {h \in hist : ~(HPtn(h.ver) >= base \div opt.hf /\ HPtn(h.ver) < pend \div opt.hf)}
+  /\ delp' = IF pend \div opt.hf > delp THEN pend \div opt.hf ELSE delp
   /\ base' = pend /\ pend' = 0
   /\ UNCHANGED <<opt, vers, anc, rootv, cont, tver, ever, dedup, ckroot, rcache, w>>
 
 \* a new MuxDB over the same store: caches are gone, an open working copy is dropped
-Reopen ==
+ReopenAny ==
   /\ rcache' = [n \in Names |-> NoVer]
-  /\ w' = [par |-> NoVer, cur |-> [n \in Names |-> Empty], touched |-> [n \in Names |-> {}]]
-  /\ w.par # NoVer \/ \E n \in Names : rcache[n] # NoVer
-  /\ UNCHANGED <<opt, vers, anc, rootv, cont, tver, ever, hist, dedup, base, ckroot, pend>>
+  /\ w' = Closed
+  /\ UNCHANGED <<opt, vers, anc, rootv, cont, tver, ever, delp, dedup, base, ckroot, pend>>
+Reopen == (w.par # NoVer \/ \E n \in Names : rcache[n] # NoVer) /\ ReopenAny
 
 \* ---------------------------------------------------------------- bounded exploration
 TouchCount == Cardinality(UNION {{<<n, k>> : k \in w.touched[n]} : n \in Names})
 ForkCount == Cardinality({b \in vers : b.min > 0})
-ValOf(b) == b.maj * (MaxMin + 1) + b.min + 1     \* a fresh value per block
+ValOf(b) == b.maj * (MaxMin + 1) + b.min + 2     \* a fresh value per block (1 = genesis value)
+MayBuildOn(p) == NextMinor(p.maj + 1) = 0 \/ (NextMinor(p.maj + 1) <= MaxMin /\ ForkCount < MaxForks)
 \* one block = a change function over (trie, key): keep / set a fresh value / delete / touch
 Changes == {f \in [Names \X Keys -> {"keep", "set", "del", "touch"}] :
                Cardinality({x \in Names \X Keys : f[x] # "keep"}) <= MaxTouch}
@@ -275,60 +298,56 @@ BlockStep(p, f) ==
      /\ \A n \in Names, k \in Keys : f[<<n, k>>] \in {"del", "touch"} => pc[n][k] # 0
      /\ Block(p, cur, touched)
 NextFine ==
-  \/ \E p \in vers : Open(p) /\ (NextMinor(p.maj + 1) = 0 \/ (NextMinor(p.maj + 1) <= MaxMin /\ ForkCount < MaxForks))
+  \/ \E p \in vers : MayBuildOn(p) /\ Open(p)
   \/ \E n \in Names, k \in Keys :
         /\ w.par # NoVer /\ TouchCount < MaxTouch /\ k \notin w.touched[n]
         /\ \/ Update(n, k, ValOf(V(w.par.maj + 1, NextMinor(w.par.maj + 1))))
            \/ Update(n, k, 0)
            \/ Touch(n, k)
   \/ Commit \/ CommitFork
-Next ==
-  \/ \E p \in vers : /\ (NextMinor(p.maj + 1) = 0 \/ (NextMinor(p.maj + 1) <= MaxMin /\ ForkCount < MaxForks))
-                      /\ \E f \in Changes : BlockStep(p, f)
+NextStore ==
   \/ \E t \in vers : Checkpoint(t, t.maj + 1)
   \/ DeleteHist
   \/ Reopen
-SpecFine == Init /\ [][NextFine \/ Next]_vars
+Next ==
+  \/ \E p \in vers : MayBuildOn(p) /\ \E f \in Changes : BlockStep(p, f)
+  \/ NextStore
 Spec == Init /\ [][Next]_vars
+SpecFine == Init /\ [][NextFine \/ NextStore]_vars
 
 \* ---------------------------------------------------------------- properties
-\* during a prune round (pend # 0) the guarantee already refers to the old base
 RetainedReadable ==
   \A b \in vers : Retained(b) =>
      \A cached \in BOOLEAN : ReadState(b, cached) = Logical(b)
 PrunedNeverDifferent ==
-  \A b \in vers : ~Retained(b) =>
-     \A cached \in BOOLEAN : LET s == ReadState(b, cached) IN StateErr(s) \/ s = Logical(b)
+  \A b \in vers : (~Retained(b) /\ Owed(b)) =>
+     \A cached \in BOOLEAN : \E s \in {ReadState(b, cached)} : StateErr(s) \/ s = Logical(b)
 \* node-wise form, independent of which lookups the caches happen to serve: along the TRUE tree of any block whose
 \* main roots can be obtained, the store never answers a lookup with a wrong blob (missing is fine below base)
-TrueRefs(n, rv) == {[path |-> q, ver |-> tver[n][rv][q]] : q \in DOMAIN tver[n][rv]}
 RootObtainable(b) == \A n \in Main : rootv[n][b] = NoVer \/ Lookup(n, <<>>, rootv[n][b], TRUE) # NoNode
 NoWrongNode ==
-  \A b \in vers : RootObtainable(b) =>
+  \A b \in vers : (RootObtainable(b) /\ Owed(b)) =>
     \A n \in Names : rootv[n][b] # NoVer =>
-      \A r \in TrueRefs(n, rootv[n][b]) :
-         LET got == StoreGet(n, r.path, r.ver) IN
-         /\ got = NoNode \/ got = GetIn(ever, n, r.path, r.ver)
-         /\ Retained(b) => got # NoNode
-\* the committed root denotes exactly the canonical shape of the content: reading through the undeleted ghost store
-\* gives the content back, and the standalone nodes reachable are those of the canonical shape
+      \A q \in DOMAIN tver[n][rootv[n][b]] :
+         \E got \in {StoreGet(n, q, tver[n][rootv[n][b]][q])} :
+           /\ got = NoNode \/ got = EverGet(n, q, tver[n][rootv[n][b]][q])
+           /\ Retained(b) => got # NoNode
+\* the committed root denotes exactly the canonical shape of the content: reading through the undeleted store
+\* gives the content back, the standalone nodes are those of the canonical shape, versions never grow downwards
 RECURSIVE EverRead(_, _, _)
-EverRead(n, p, v) ==
-  LET nd == GetIn(ever, n, p, v) IN
-  IF nd = NoNode THEN Err
-  ELSE LET sub == [q \in DOMAIN nd.refs |-> EverRead(n, q, nd.refs[q])] IN
-       IF \E q \in DOMAIN sub : sub[q] = Err THEN Err
-       ELSE [k \in Keys |-> IF k \in DOMAIN nd.leaves THEN nd.leaves[k]
-                            ELSE IF \E q \in DOMAIN sub : IsPrefix(q, k)
-                                 THEN sub[CHOOSE q \in DOMAIN sub : IsPrefix(q, k)][k] ELSE 0]
+EverReadFrom(n, nd) ==
+  IF nd = NoNode THEN Err ELSE Assemble(nd, [q \in DOMAIN nd.refs |-> EverRead(n, q, nd.refs[q])])
+EverRead(n, p, v) == EverReadFrom(n, EverGet(n, p, v))
 Childless(b) == ~\E x \in vers : x # b /\ b \in anc[x]
 RootCanonical ==
   \A n \in Names : \A rv \in {x \in DOMAIN cont[n] : Childless(x)} :   \* entries are immutable once written
      /\ EverRead(n, <<>>, rv) = cont[n][rv]
      /\ DOMAIN tver[n][rv] = Standalone(cont[n][rv], Skip(n))
      /\ \A q \in DOMAIN tver[n][rv] :
-          /\ tver[n][rv][q].maj <= rv.maj                                    \* parent version >= descendants'
+          /\ tver[n][rv][q].maj <= rv.maj
           /\ \A r \in DOMAIN tver[n][rv] : IsPrefix(q, r) =>
                (tver[n][rv][r].maj < tver[n][rv][q].maj \/ tver[n][rv][r] = tver[n][rv][q])
-DedupKeyUnique == \A d, e \in dedup : (d.ptn = e.ptn /\ d.name = e.name /\ d.path = e.path) => d = e
+\* old versions do become unreadable (the pruner does prune): whole deleted partitions hold no main root
+PrunedUnreadable ==
+  \A b \in vers : (HPtn(b) < delp /\ \E n \in Main : rootv[n][b] # NoVer) => StateErr(ReadState(b, FALSE))
 =============================================================================
